@@ -114,6 +114,8 @@ pub fn gen_cases(prop: &str, seed: u64, n: u64, out: &str) {
                 "repeat_after_s": if repeat { Some(1.3) } else if second.is_some() { Some(0.3) } else { None },
                 "repeat_transport": second,
                 "upstream_udp_hex": upstream_udp.as_ref().map(|b| hex(b)),
+                // an upstream that truncates over UDP and then hangs up on the TCP retry: no full answer can be had
+                "upstream_tcp": if upstream_udp.is_some() && second == Some("tcp") && r.chance(1, 2) { Some("close") } else { None },
             })
             .to_string(),
         );
@@ -186,6 +188,28 @@ pub fn judge(prop: &str, cases_path: &str, events_path: &str) -> Leg {
         };
         let want = all_records(&up);
         let got = all_records(&cm);
+        if prop == "C04" && (cm.rcode() & 0xf) == 2 && got.is_empty() && (up.rcode() & 0xf) != 2 {
+            // a server failure (here: the shared upstream TCP connection was hung up on by the upstream while this query was
+            // waiting on it) is well-formed, within every limit and claims nothing about truncation; whether a query may be
+            // failed at all is C07's subject
+            if resp.len() > limit {
+                leg.violation(format!("C04/response-exceeds-limit/{}", transport), format!("{} octets sent, limit {} (advertised {:?})", resp.len(), limit, adv), replay);
+            }
+            leg.count("server_failure_responses", 1);
+            continue;
+        }
+        if prop == "C04" && case["upstream_tcp"].as_str() == Some("close") {
+            // the full answer is out of reach: a server failure is the honest response; what must not happen is a response
+            // over TCP that claims truncation, or an incomplete one that does not say so
+            leg.class(format!("{}|upstream-tcp-hangs-up|rcode{}|tc{}", transport, cm.rcode() & 0xf, cm.tc()));
+            leg.count("upstream_tcp_hangs_up_cases", 1);
+            if transport == "tcp" && cm.tc() {
+                leg.violation("C04/tcp-response-truncated-although-it-fits", format!("TC set on a response over TCP ({} of {} records; the upstream truncated over UDP and hung up on TCP)", got.len(), want.len()), replay);
+            } else if (cm.rcode() & 0xf) == 0 && got.len() < want.len() && !cm.tc() {
+                leg.violation(format!("C04/records-omitted-without-tc/{}", transport), format!("{} of {} records, TC clear (upstream hung up on TCP)", got.len(), want.len()), replay);
+            }
+            continue;
+        }
         // erbium appends its own OPT record last, so it is the first thing truncation removes
         let truncated = got.len() < want.len() || cm.opt.is_none();
         if prop == "C04" {
